@@ -31,7 +31,7 @@ COMPONENTS = {
     "real": ["SciPySampler (all methods)", "scipy.stats / scipy.stats.qmc engines", "EnsembleEvaluator._init_samplers / _perturb_variables"],
     "stub": ["tap wrapper around the sampler", "SimEvaluator", "sim/scripted optimizer"],
 }
-PROBES = ["explicit_options_sampler", "calls_checked", "qmc_calls", "lhs_stratification_checked", "shared_checked", "unshared_checked",
+PROBES = ["short_assignment", "explicit_options_sampler", "calls_checked", "qmc_calls", "lhs_stratification_checked", "shared_checked", "unshared_checked",
           "masked_columns_checked", "repeated_call", "sampler_without_variables", "bounded_checked"]
 METHODS = ["uniform", "norm", "truncnorm", "sobol", "halton", "lhs"]
 BOUNDED = {"uniform", "truncnorm", "sobol", "halton", "lhs"}
@@ -73,6 +73,11 @@ def generate(seed: int, index: int, tier: str) -> dict:
         if not any(a >= 0 and mm for a, mm in zip(assign, m)):
             assign[[i for i, mm in enumerate(m) if mm][0]] = rng.randrange(ns)
         cfg["gradient"]["samplers"] = assign
+        if rng.random() < 0.2:
+            # "all variables use sampler k", written the short way (size-one arrays are broadcast)
+            cfg["gradient"]["samplers"] = [rng.randrange(ns)]
+    elif rng.random() < 0.15:
+        cfg["gradient"]["samplers"] = [0]
     cfg["gradient"]["boundary_types"] = 1
     scn["stratum"] = cfg["samplers"][0]["method"]
     return scn
@@ -91,6 +96,9 @@ def execute(scn: dict) -> dict:
     c = model.cfg_counts(cfg)
     nr, npert, nv = c["nr"], c["np"], c["nv"]
     assign = cfg["gradient"].get("samplers")
+    if assign is not None and len(assign) == 1:
+        assign = list(assign) * nv
+        probe("short_assignment")
     if assign is not None:
         used = {a for a, m in zip(assign, model.mask_of(cfg)) if a >= 0 and m}
         if len(used) < len(cfg["samplers"]):
